@@ -44,6 +44,21 @@ RECORD_FIELDS: dict[str, list[tuple[str, str]]] = {}
 RECORD_MUTABLE: dict[str, bool] = {}
 
 
+UNIONS: dict[str, z3.DatatypeSortRef] = {}
+
+
+def declare_union(name: str, alts: list[tuple[str, list[tuple[str, str]]]]):
+    """tagged union datatype: alts = [(ctor, [(field, sort), ...]), ...]"""
+    if name in UNIONS:
+        return UNIONS[name]
+    d = z3.Datatype(name)
+    for ctor, fields in alts:
+        d.declare(ctor, *[(f'{ctor}__{f}', sort_of(s)) for f, s in fields])
+    d = d.create()
+    UNIONS[name] = d
+    return d
+
+
 def sort_of(name: str):
     """Map a sig sort name to a z3 sort (None for python-side kinds)."""
     name = name.strip()
@@ -72,6 +87,8 @@ def sort_of(name: str):
         return z3.ArraySort(sort_of(k), sort_of(v))
     if name in RECORDS:
         return RECORDS[name]
+    if name in UNIONS:
+        return UNIONS[name]
     return None
 
 
